@@ -591,7 +591,9 @@ def _initialize_components(n_components, input, y=None, init='auto',
       pca.fit(input)
       transformation = pca.components_
     elif init == 'lda':
-      lda = LinearDiscriminantAnalysis(n_components=n_components)
+      # LDA finds at most n_classes - 1 directions; the remaining rows are zero
+      n_lda = min(n_components, max(len(np.unique(y)) - 1, 1))
+      lda = LinearDiscriminantAnalysis(n_components=n_lda)
       if verbose:
         print('Finding most discriminative components... ')
         sys.stdout.flush()
